@@ -161,6 +161,20 @@ ThRegBounds == On("Reg") => /\ DD(y) >= 0 /\ SSE(y, z) >= 0
                             /\ (SSE(y, z) = 0 <=> \A i \in Present(y) : z[i] = y[i])
 ThMissingIgnored == (On("Reg") /\ \E i \in 1..n : y[i] = MissCode) =>
                        LET i == CHOOSE q \in 1..n : y[q] = MissCode IN RegAll(y, z) = RegAll(Drop(y, i), Drop(z, i))
+(* translation and scale laws: every figure is a function of the DEVIATIONS only.  A common shift c of truths and predictions      *)
+(* leaves SSE, SAE, m*SST and the slope's numerator m*Spy - Sy*Sp unchanged, hence MSE, MAE, RMSE, R2 and BIAS; a common factor s   *)
+(* multiplies MSE by s^2 and MAE (RMSE) by |s| and leaves R2 and BIAS unchanged.  This is what entitles the replay to compare the  *)
+(* library at large common offsets / dyadic scales with the SAME exact value (an implementation that forms sum y^2 - (sum y)^2/n    *)
+(* or sum yp*(y - mean) on uncentred data agrees on small numbers and loses every digit when |mean| >> spread).                    *)
+ShiftV(v, cc) == [i \in DOMAIN v |-> IF v[i] = MissCode THEN MissCode ELSE v[i] + cc]
+ScaleV(v, s) == [i \in DOMAIN v |-> IF v[i] = MissCode THEN MissCode ELSE s * v[i]]
+ThShiftInvariant == On("Reg") => \A cc \in {-7, 5, 1000} : RegAll(ShiftV(y, cc), ShiftV(z, cc)) = RegAll(y, z)
+ThScaleLaw == On("Reg") => \A s \in {2, -3, 10} :
+                 LET a == RegAll(ScaleV(y, s), ScaleV(z, s))  b == RegAll(y, z) IN
+                 /\ a[1] = <<s * s * b[1][1], b[1][2]>>                               \* MSE * s^2
+                 /\ a[2] = <<Abs(s) * b[2][1], b[2][2]>>                              \* MAE * |s|
+                 /\ a[3] = <<s * s * b[3][1], s * s * b[3][2]>>                       \* R2 unchanged (both terms * s^2)
+                 /\ a[4] = <<s * s * b[4][1], s * s * b[4][2]>>                       \* BIAS unchanged
 ThLayout == (st = 1 /\ fam \in Tables) => /\ L!LayoutBijective
                                            /\ \A j \in 1..ny : IF fam = "PlsDa" THEN P(TrueCol(j)) > 0 /\ N(TrueCol(j)) > 0 ELSE DD(TrueCol(j)) > 0
                                            /\ (fam = "PlsDa" => \A cc \in 0..(ny * nlv - 1) : Cardinality({PredCol(cc)[i] : i \in 1..TRows}) = TRows)
